@@ -451,7 +451,9 @@ theorem tRxActive_inv (c : Cfg) (Bt : Nat) (hm : c.tmiu + 3 + flag c.tdid 1 ≤ 
       · split
         · exact ⟨ht, fun p h => ht p h⟩
         · split
-          · exact tAccept_inv c Bt hm t _ _ _ ht
+          · split
+            · exact ⟨ht, fun p h => ht p h⟩
+            · exact tAccept_inv c Bt hm t _ _ _ ht
           · split
             · exact ⟨ht, fun p h => ht p h⟩
             · exact tAccept_inv c Bt hm t _ _ _ ht
@@ -598,7 +600,9 @@ theorem tRxActive_err (c : Cfg) (hm : c.tmiu + 3 + flag c.tdid 1 ≤ 254) (hf : 
       · split
         · exact ht
         · split
-          · exact tAccept_err c hm t _ _ _ ht
+          · split
+            · exact ht
+            · exact tAccept_err c hm t _ _ _ ht
           · split
             · exact ht
             · exact tAccept_err c hm t _ _ _ ht
